@@ -5,4 +5,4 @@ OBLIGATIONS = [
     dict(C06.ob('C10.interp.slab', 'h_c06_slab', [(0, 3, 2, 1), (0, 3, 1, 1)], INTERP, '3 sections x 1-2 segments, one stub model per kind and segment; every interpolated quantity is a + f (b - a) of sections cur and cur+1 only (so other sections cannot influence it)',
                 cases_thorough=[(0, 3, 2, 1), (0, 3, 1, 1), (0, 4, 2, 1), (0, 3, 2, 2)])),
     dict(C06.ob('C10.interp.fault', 'h_c06_fault', [(0, 3, 2, 1), (0, 3, 1, 1)], INTERP, 'as C10.interp.slab', cases_thorough=[(0, 3, 2, 1), (0, 3, 1, 1), (0, 4, 2, 1), (0, 3, 2, 2)])),
-]
+] + [dict(o, id=o['id'].replace('C12.sections', 'C10.sections')) for o in __import__('C12').OBLIGATIONS if o['id'].startswith('C12.sections')]
